@@ -333,6 +333,10 @@ def runCmd (w : World) (tok : Array String) : World × List String :=
       (match getKeys kf (dec (t 2)) with
        | .ok ks => (w, ["keys E0" ++ String.join (ks.map (fun k => " " ++ hexStr k))])
        | .error e => (w, [s!"keys {E e}"]))
+  | "TOOLSHOW" =>
+    match w.slot (slotOf (t 1)) with
+    | none => (w, ["toolshow null"])
+    | some kf => (w, [s!"toolshow {hexStr (toolShow kf)}"])
   | "KEYSUM" =>
     match w.slot (slotOf (t 1)) with
     | none => (w, ["keysum ?"])
